@@ -52,6 +52,11 @@ def gen_random(cs, rnd, n):
         rows = [sorted_members(r) for r in rows]
         PC.add_rel(cs, "unique", cfg, PC.variant(cfg, unique=False), rows, rnd)
         cs.recipes[-1]["runs"][0]["stdin"] = cs.recipes[-1]["runs"][1]["stdin"] = hexs(PL.input_bytes(rows, rnd))   # escapes / spellings vary
+        if i % 5 == 0:
+            c3 = PL.sparse_cfg(rnd)
+            srows = PL.sparse_rows(rnd, rnd.choice([3, 6, 12, 20]))
+            PC.add_ref(cs, c3, srows, rnd)
+            PC.add_rel(cs, "unique", c3, PC.variant(c3, unique=False), srows, rnd)
         if i % 3 == 0:
             c2 = PL.rand_cfg(rnd, "unique")
             c2["unique"] = True
